@@ -92,6 +92,9 @@ def all_variants(prop, mod):
     for sd in seeds_of(prop):
         kind = "seed-obsolete" if sd["obsolete"] else "seed"
         seeds.append(Variant(kind, "seeded change %s: %s" % (sd["name"], sd["summary"]), "", None, None, None, sd))
+    from .seedcorpus import benign_all
+    for sd in benign_all():
+        seeds.append(Variant("benign", "behaviour-preserving change %s: %s" % (sd["name"], sd["summary"]), "", None, None, None, sd))
     return out + auto_rename_twins(files) + seeds
 
 
@@ -114,6 +117,13 @@ def _run_one(args):
     if ctx.inconclusive and v.name.startswith("auto:") and not new:
         # alpha-renaming made a name-anchored rule inconclusive: tolerated (never a violation), recorded in evidence
         return (idx, "inconclusive", ctx.inconclusive[:300])
+    if v.kind == "benign":
+        if new:
+            return (idx, "fail", "behaviour-preserving change %s is reported: %s" %
+                    (v.seed["name"], [(f.rule, f.message[:100]) for f in new]))
+        if ctx.inconclusive:
+            return (idx, "inconclusive", ctx.inconclusive[:300])
+        return (idx, "ok", "silent")
     if ctx.inconclusive and v.kind not in ("seed", "seed-obsolete") and not (v.kind == "witness" and any(f.rule == v.rule for f in new)):
         if v.kind == "witness":
             return (idx, "fail", "witness made the analysis inconclusive instead of firing: %s" % ctx.inconclusive)
@@ -192,13 +202,16 @@ def run_variants(prop, mod, prog, base_ctx, tier, seed):
         if status == "skipped":
             res["witnesses_skipped"] += 1
         elif status == "inconclusive":
-            res.setdefault("auto_twins_inconclusive", []).append(v.name)
+            res.setdefault("benign_inconclusive" if v.kind == "benign" else "auto_twins_inconclusive", []).append(
+                v.name if v.kind != "benign" else "%s: %s" % (v.seed["name"], msg[:160]))
         elif status in ("fail", "error"):
             fails.append("%s %s: %s" % (v.kind, v.name, msg))
         elif v.kind == "witness":
             res["witnesses_run"] += 1
         elif v.kind in ("seed", "seed-obsolete"):
             res["seeds_run"] = res.get("seeds_run", 0) + 1
+        elif v.kind == "benign":
+            res["benign_run"] = res.get("benign_run", 0) + 1
         else:
             res["twins_run"] += 1
     if fails:
